@@ -454,6 +454,7 @@ Fixpoint rval_ok (v : rval) : Prop :=
   match v with
   | RStruct _ ps => (fix go (l : list rval) : Prop := match l with [] => True | p :: r => rval_ok p /\ go r end) ps
   | RPtrs ps => (fix go (l : list rval) : Prop := match l with [] => True | p :: r => rval_ok p /\ go r end) ps
+  | RComp es => (fix go (l : list rval) : Prop := match l with [] => True | p :: r => rval_ok p /\ go r end) es
   | RPrim w xs => w = 8 -> bytes_ok xs
   | _ => True
   end.
@@ -532,12 +533,12 @@ Qed.
 
 Lemma data_bytes_ok : forall p, rval_ok p -> bytes_ok (data_bytes p).
 Proof.
-  intros [| d0 pp0 | w xs | ps0 |] H; simpl; try constructor.
+  intros [| d0 pp0 | w xs | ps0 | es0 |] H; simpl; try constructor.
   destruct (Z.eqb_spec w 8); [now apply H|constructor].
 Qed.
 Lemma text_bytes_ok : forall p, rval_ok p -> bytes_ok (text_bytes p).
 Proof.
-  intros [| d0 pp0 | w xs | ps0 |] H; simpl; try constructor.
+  intros [| d0 pp0 | w xs | ps0 | es0 |] H; simpl; try constructor.
   destruct (Z.eqb_spec w 8); [|constructor]. destruct (last xs 1 =? 0); [|constructor].
   apply removelast_ok. now apply H.
 Qed.
@@ -550,14 +551,35 @@ Qed.
 
 Lemma as_struct_ok : forall p d ps, rval_ok p -> as_struct p = (d, ps) -> Forall rval_ok ps.
 Proof.
-  intros [| d0 ps0 | w0 xs0 | ps0 |] d ps H E; simpl in E; inversion E; subst; try constructor.
+  intros [| d0 ps0 | w0 xs0 | ps0 | es0 |] d ps H E; simpl in E; inversion E; subst; try constructor.
   now apply rval_ok_go.
+Qed.
+
+Lemma first_ptrs_ok : forall es ps, Forall rval_ok es -> first_ptrs es = Some ps -> Forall rval_ok ps.
+Proof.
+  induction es as [|e es IH]; intros ps H E; simpl in E.
+  - inversion E; subst. constructor.
+  - inversion H as [|? ? He Hes]; subst.
+    destruct e as [| d [|p pp] | | | |]; try discriminate.
+    destruct (first_ptrs es) as [ps'|] eqn:E'; [|discriminate]. inversion E; subst.
+    constructor; [|now apply IH].
+    simpl in He. tauto.
 Qed.
 
 Lemma ptr_elems_ok : forall l ps, rval_ok l -> ptr_elems l = Ok ps -> Forall rval_ok ps.
 Proof.
-  intros [| d0 pp0 | w xs | ps0 |] ps H E; simpl in E; try (inversion E; subst; constructor).
+  intros [| d0 pp0 | w xs | ps0 | es0 |] ps H E; simpl in E; try (inversion E; subst; constructor).
   - destruct (length xs =? 0)%nat; inversion E; subst; constructor.
+  - inversion E; subst. now apply rval_ok_go.
+  - destruct (first_ptrs es0) as [ps'|] eqn:E'; [|discriminate]. inversion E; subst.
+    eapply first_ptrs_ok; [|eassumption]. now apply rval_ok_go.
+Qed.
+
+Lemma struct_elems_ok : forall l ps, rval_ok l -> struct_elems l = Ok ps -> Forall rval_ok ps.
+Proof.
+  intros [| d0 pp0 | w xs | ps0 | es0 |] ps H E; simpl in E; try (inversion E; subst; constructor).
+  - destruct (length xs =? 0)%nat; inversion E; subst; constructor.
+  - inversion E; subst. now apply rval_ok_go.
   - inversion E; subst. now apply rval_ok_go.
 Qed.
 
@@ -590,7 +612,7 @@ Proof. induction l; constructor; auto. Qed.
 
 Ltac step_sh_in H :=
   with_strategy opaque [find bind charge lookup collect_fields collect_elems ret fail lift shown_enum existsb c_cut andb
-                        prim_elems ptr_elems list_len get_le get_bit ptr_at is_null as_struct
+                        prim_elems ptr_elems struct_elems list_len get_le get_bit ptr_at is_null as_struct
                         data_bytes text_bytes sint tvals_of Z.lxor Z.eqb Z.ltb Z.leb] simpl in H.
 
 Lemma shown_wf : forall ffmt c sc, schema_ok sc -> forall fuel,
@@ -700,7 +722,7 @@ Proof.
     + (* structs *)
       apply bind_ok in H. destruct H as (pl & s2 & Hpl & H). apply lift_ok in Hpl.
       apply bind_ok in H. destruct H as (vs & s3 & Hc & H). apply ret_ok in H. subst t.
-      cbn [wf_tval]. eapply (collect_elems_wf _ rval_ok); [|eapply ptr_elems_ok; eassumption|exact Hc].
+      cbn [wf_tval]. eapply (collect_elems_wf _ rval_ok); [|eapply struct_elems_ok; eassumption|exact Hc].
       intros x st0 v st0' Hx Hs. cbv beta in Hs. destruct (as_struct x) as [d' ps'] eqn:Ea.
       eapply IHs; [|exact Hs]. eapply as_struct_ok; eassumption.
     + (* interfaces *)
@@ -902,3 +924,207 @@ Proof.
   - destruct (is_null _); [apply bind_no_oof; [apply charge_no_oof|intros _]|]; apply ret_no_oof.
   - apply shown_enum_no_oof.
 Qed.
+
+(* ------------------------------------------------------------ histories with UseRegistry *)
+
+Definition cache_coherent (st : enc_state) : Prop :=
+  match es_cache st with Some (sc', _) => sc' = es_reg st | None => True end.
+
+Definition op_loadable (c : cfg) (o : enc_op) : Prop :=
+  match o with OpUse reg => s_load reg <= c_limit0 c | _ => True end.
+
+Lemma with_schema_coherent : forall sc c, cache_coherent (mkEnc sc (with_schema sc c)).
+Proof. intros sc [b|]; reflexivity. Qed.
+
+Lemma apply_e_reg : forall f st, es_reg (snd (apply_e f st)) = es_reg st.
+Proof.
+  intros f [reg [[sc' b]|]]; unfold apply_e; simpl.
+  - destruct (f sc' (Some b)); reflexivity.
+  - destruct (f reg None); reflexivity.
+Qed.
+
+Lemma apply_e_coherent : forall f st, cache_coherent st -> cache_coherent (snd (apply_e f st)).
+Proof.
+  intros f [reg [[sc' b]|]] H; unfold cache_coherent in H; unfold apply_e; simpl in *.
+  - subst sc'. destruct (f reg (Some b)) as [r c']. simpl. apply with_schema_coherent.
+  - destruct (f reg None) as [r c']. simpl. apply with_schema_coherent.
+Qed.
+
+(* an operation whose output does not depend on the cache it finds gives, on a coherent
+   encoder, the output of a fresh encoder on the same registry *)
+Lemma apply_e_fresh : forall f st,
+  (forall b, fst (f (es_reg st) (Some b)) = fst (f (es_reg st) None)) -> cache_coherent st ->
+  fst (apply_e f st) = fst (f (es_reg st) None).
+Proof.
+  intros f [reg [[sc' b]|]] Hf H; unfold cache_coherent in H; unfold apply_e; simpl in *.
+  - subst sc'. rewrite <- (Hf b). destruct (f reg (Some b)); reflexivity.
+  - destruct (f reg None); reflexivity.
+Qed.
+
+Lemma run_ops_coherent : forall ffmt c fuel ops st,
+  cache_coherent st -> cache_coherent (run_ops ffmt c true fuel ops st).
+Proof.
+  intros ffmt c fuel. induction ops as [|o r IH]; intros st H; [assumption|].
+  simpl. apply IH. destruct o as [id v|id l|reg]; simpl.
+  - now apply apply_e_coherent.
+  - now apply apply_e_coherent.
+  - exact I.
+Qed.
+
+(* the registry an encoder ends up with is loadable if the first one and all later ones are *)
+Lemma run_ops_reg_loadable : forall ffmt c fuel ops st,
+  s_load (es_reg st) <= c_limit0 c -> Forall (op_loadable c) ops ->
+  s_load (es_reg (run_ops ffmt c true fuel ops st)) <= c_limit0 c.
+Proof.
+  intros ffmt c fuel. induction ops as [|o r IH]; intros st H Hops; [assumption|].
+  inversion Hops; subst. simpl. apply IH; [|assumption].
+  destruct o as [id v|id l|reg]; simpl.
+  - unfold encode_e. now rewrite apply_e_reg.
+  - unfold encode_list_e. now rewrite apply_e_reg.
+  - assumption.
+Qed.
+
+(* EncodeList: a non-empty list starts with Find, which makes the rest independent of the cache;
+   an empty list never consults the cache *)
+Lemma collect_elems_state_irrelevant : forall {A} (step : A -> M tval) (l : list A),
+  (forall x st1 st2, step x st1 = step x st2) -> l <> [] ->
+  forall st1 st2, collect_elems step l st1 = collect_elems step l st2.
+Proof.
+  intros A step [|x r] Hs Hne st1 st2; [congruence|].
+  simpl. unfold bind at 1. symmetry. unfold bind at 1. now rewrite (Hs x st1 st2).
+Qed.
+
+Definition elem_step ffmt c sc f id : rval -> M tval :=
+  fun p => let (d, pp) := as_struct p in shown_struct ffmt c sc f [] id d pp.
+
+Lemma shown_list_struct_unfold : forall ffmt c sc f id l st,
+  shown_list ffmt c sc (S f) [] (TStruct id) l st =
+  match struct_elems l with
+  | Ok ps => match collect_elems (elem_step ffmt c sc f id) ps st with
+             | Ok (vs, st') => Ok (TvList vs, st')
+             | Err e => Err e
+             | OutOfFuel => OutOfFuel
+             end
+  | Err e => Err e
+  | OutOfFuel => OutOfFuel
+  end.
+Proof.
+  intros. with_strategy opaque [struct_elems collect_elems] simpl.
+  unfold bind, lift, ret, elem_step. destruct (struct_elems l); reflexivity.
+Qed.
+
+Lemma shown_list_struct_out_irrelevant : forall ffmt c sc, c_fixed c = true -> s_load sc <= c_limit0 c ->
+  forall fuel id l st,
+  match shown_list ffmt c sc fuel [] (TStruct id) l st, shown_list ffmt c sc fuel [] (TStruct id) l None with
+  | Ok (t1, _), Ok (t2, _) => t1 = t2
+  | Err e1, Err e2 => e1 = e2
+  | OutOfFuel, OutOfFuel => True
+  | _, _ => False
+  end.
+Proof.
+  intros ffmt c sc Hf Hl fuel id l st. destruct fuel as [|f]; [exact I|].
+  rewrite !shown_list_struct_unfold.
+  destruct (struct_elems l) as [ps|e|]; [|reflexivity|exact I].
+  destruct ps as [|p ps].
+  - simpl. reflexivity.
+  - rewrite (collect_elems_state_irrelevant (elem_step ffmt c sc f id) (p :: ps)) with (st2 := None).
+    + destruct (collect_elems (elem_step ffmt c sc f id) (p :: ps) None) as [[vs s']|e|]; auto.
+    + intros x s1 s2. unfold elem_step. destruct (as_struct x). now apply shown_struct_state_irrelevant.
+    + discriminate.
+Qed.
+
+Lemma encode_list_state_irrelevant : forall ffmt c sc fuel id l st,
+  c_fixed c = true -> s_load sc <= c_limit0 c ->
+  fst (encode_list ffmt c sc fuel id l st) = fst (encode_list ffmt c sc fuel id l None).
+Proof.
+  intros ffmt c sc fuel id l st Hf Hl. unfold encode_list.
+  pose proof (shown_list_struct_out_irrelevant ffmt c sc Hf Hl fuel id l st) as H.
+  destruct (shown_list ffmt c sc fuel [] (TStruct id) l st) as [[t1 s1]|e1|];
+  destruct (shown_list ffmt c sc fuel [] (TStruct id) l None) as [[t2 s2]|e2|]; simpl; try contradiction; congruence.
+Qed.
+
+(* Encode / EncodeList after ANY history of Encode, EncodeList and UseRegistry calls on one
+   encoder write what a fresh encoder pointed at the same (current) registry writes *)
+Theorem encode_history_independent_reg : forall ffmt c fuel reg0 ops id v,
+  c_fixed c = true -> s_load reg0 <= c_limit0 c -> Forall (op_loadable c) ops ->
+  let st := run_ops ffmt c true fuel ops (enc_init reg0) in
+  fst (encode_e ffmt c fuel id v st) = fst (encode ffmt c (es_reg st) fuel id v None).
+Proof.
+  intros ffmt c fuel reg0 ops id v Hf Hl Hops st. unfold encode_e.
+  apply (apply_e_fresh (fun sc => encode ffmt c sc fuel id v)).
+  - intros b. apply encode_state_irrelevant; [assumption|]. apply run_ops_reg_loadable; assumption.
+  - apply run_ops_coherent. exact I.
+Qed.
+
+Theorem encode_list_history_independent : forall ffmt c fuel reg0 ops id l,
+  c_fixed c = true -> s_load reg0 <= c_limit0 c -> Forall (op_loadable c) ops ->
+  let st := run_ops ffmt c true fuel ops (enc_init reg0) in
+  fst (encode_list_e ffmt c fuel id l st) = fst (encode_list ffmt c (es_reg st) fuel id l None).
+Proof.
+  intros ffmt c fuel reg0 ops id l Hf Hl Hops st. unfold encode_list_e.
+  apply (apply_e_fresh (fun sc => encode_list ffmt c sc fuel id l)).
+  - intros b. apply encode_list_state_irrelevant; [assumption|]. apply run_ops_reg_loadable; assumption.
+  - apply run_ops_coherent. exact I.
+Qed.
+
+(* ---- UseRegistry keeping the cached nodes: schema revision with a renamed field *)
+Definition reg_v1 : schema :=
+  mkSchema [(1, NStruct 0 0 56 [mkField [107; 101; 121] 4 65535 (FSlot 0 (TUint 8) 0 RNull 32 24 0)])] 100.   (* key *)
+Definition reg_v2 : schema :=
+  mkSchema [(1, NStruct 0 0 56 [mkField [110; 97; 109; 101] 5 65535 (FSlot 0 (TUint 8) 0 RNull 32 24 0)])] 100. (* name *)
+Definition reg_empty : schema := mkSchema [] 8.
+
+Example encode_history_independent_reg_refuted :
+  exists ops id v,
+    let st := run_ops no_floats cfg_fixed false 5 ops (enc_init reg_v1) in
+    fst (encode_e no_floats cfg_fixed 5 id v st) <> fst (encode no_floats cfg_fixed (es_reg st) 5 id v None).
+Proof.
+  exists [OpEncode 1 (RStruct [7] []); OpUse reg_v2], 1, (RStruct [7] []). vm_compute. discriminate.
+Qed.
+
+(* ... and a type the new registry does not know is still rendered *)
+Example use_registry_unknown_type_refuted :
+  let st := run_ops no_floats cfg_fixed false 5 [OpEncode 1 (RStruct [7] []); OpUse reg_empty] (enc_init reg_v1) in
+  fst (encode_e no_floats cfg_fixed 5 1 (RStruct [7] []) st) = Ok [40; 107; 101; 121; 32; 61; 32; 55; 41]   (* (key = 7) *)
+  /\ fst (encode no_floats cfg_fixed reg_empty 5 1 (RStruct [7] []) None) = Err ENotFound.
+Proof. split; vm_compute; reflexivity. Qed.
+
+(* with the invalidation: the same history gives the new name / the error *)
+Example use_registry_example :
+  let st := run_ops no_floats cfg_fixed true 5 [OpEncode 1 (RStruct [7] []); OpUse reg_v2] (enc_init reg_v1) in
+  fst (encode_e no_floats cfg_fixed 5 1 (RStruct [7] []) st) = Ok [40; 110; 97; 109; 101; 32; 61; 32; 55; 41].  (* (name = 7) *)
+Proof. vm_compute. reflexivity. Qed.
+
+(* ---- schema cycles of length 2 and 3 (A.b:B, B.a:A;  C.p:D, D.q:E, E.r:C), null fields.
+   The stack of types whose default is being written must be searched as a whole: with the
+   innermost entry alone the walk alternates between the types for ever. *)
+Definition cyc_field (name : list Z) (t : Z) : field := mkField name 2 65535 (FSlot 0 (TStruct t) 0 RNull 32 24 0).
+Definition cyc2_schema : schema :=
+  mkSchema [(1, NStruct 0 0 56 [cyc_field [98] 2]); (2, NStruct 0 0 56 [cyc_field [97] 1])] 200.
+Definition cyc3_schema : schema :=
+  mkSchema [(1, NStruct 0 0 56 [cyc_field [112] 2]); (2, NStruct 0 0 56 [cyc_field [113] 3]);
+            (3, NStruct 0 0 56 [cyc_field [114] 1])] 300.
+
+Lemma cyc3_diverges : forall fuel exp st id, id = 1 \/ id = 2 \/ id = 3 ->
+  shown_struct no_floats cfg_nocut cyc3_schema fuel exp id [] [] st = OutOfFuel.
+Proof.
+  induction fuel as [|f IH]; intros exp st id Hid; [reflexivity|].
+  destruct Hid as [->|[->| ->]]; destruct st as [b|]; simpl; unfold bind; simpl; rewrite IH; auto.
+Qed.
+
+Example render_cycle3_refuted : forall fuel,
+  render no_floats cfg_nocut cyc3_schema fuel 1 (RStruct [] []) = OutOfFuel.
+Proof.
+  intros fuel. unfold render, encode. simpl. rewrite cyc3_diverges; auto.
+Qed.
+
+Example render_cycle2_example :
+  render no_floats cfg_fixed cyc2_schema 9 1 (RStruct [] [])
+  = Ok [40; 98; 32; 61; 32; 40; 97; 32; 61; 32; 40; 98; 32; 61; 32; 40; 41; 41; 41; 41].      (* (b = (a = (b = ()))) *)
+Proof. vm_compute. reflexivity. Qed.
+
+Example render_cycle3_example :
+  render no_floats cfg_fixed cyc3_schema 9 1 (RStruct [] [])
+  = Ok [40; 112; 32; 61; 32; 40; 113; 32; 61; 32; 40; 114; 32; 61; 32; 40; 112; 32; 61; 32; 40; 41; 41; 41; 41; 41].
+    (* (p = (q = (r = (p = ())))) *)
+Proof. vm_compute. reflexivity. Qed.
